@@ -31,7 +31,9 @@ Print Assumptions C05_as_bool_spec.
 Theorem C05_minimally_encode_spec : forall b, minimally_encode b = num_enc (num_dec b).
 Proof. exact minimally_encode_spec. Qed.
 Print Assumptions C05_minimally_encode_spec.
-(** OP_NUM2BIN keeps the number and produces exactly n bytes; BIN2NUM undoes it *)
+(** OP_NUM2BIN keeps the number and produces exactly n bytes; BIN2NUM undoes it.  (About the padding function on its
+    own; the hypothesis [is_minimal b] is not needed -- proofs/ScriptNumProofs.num2bin_pad_spec_gen -- and the handler,
+    with its range checks, is [C05_num2bin_handler] below.) *)
 Theorem C05_num2bin_spec : forall b n, is_minimal b = true -> length b < n ->
   num_dec (num2bin_pad b n) = num_dec b /\ length (num2bin_pad b n) = n.
 Proof. exact num2bin_pad_spec. Qed.
@@ -90,7 +92,8 @@ Theorem C05_roll_n_spec : forall i d r, roll_n i d = Some r ->
 Proof. exact roll_n_spec. Qed.
 Print Assumptions C05_roll_n_spec.
 
-(** flow control: the nesting of conditionals the interpreter tracks never exceeds what the parser counted,
+(** flow control (only a bound on the DEPTH of the condition stack; WHICH opcodes execute is
+    [C05_handler_runs_iff_all_branches_taken] below): the nesting of conditionals the interpreter tracks never exceeds what the parser counted,
     and a post-genesis top-level OP_RETURN ends the script successfully (pre-genesis: fails) *)
 Theorem C05_cond_depth_tracks_parser : forall so c p idx s d,
   sigops_ok so -> p_real p = true -> (c_has_tx c = false -> (p_val p =? OP_CSV)%N = false) ->
@@ -206,6 +209,27 @@ Theorem C05_config_limits_match :
   lookup config_consts "MaxPubKeysPerMultiSigBeforeGenesis" = Some (max_pubkeys pre_genesis_ctx).
 Proof. exact config_limits_match. Qed.
 Print Assumptions C05_config_limits_match.
+
+(** ... and so do the values the methods of BOTH era configurations return (the post-Genesis limits are literals inside
+    method bodies: 750 * 1000 bytes for a number, math.MaxInt32 for the rest), evaluated by the translator on every run *)
+Theorem C05_config_methods_match :
+  after_genesis pre_genesis_ctx = false /\ after_genesis post_genesis_ctx = true /\
+  lookup config_methods "beforeGenesisConfig.AfterGenesis" = Some 0%Z /\
+  lookup config_methods "afterGenesisConfig.AfterGenesis" = Some 1%Z /\
+  lookup config_methods "beforeGenesisConfig.MaxOps" = Some (max_ops pre_genesis_ctx) /\
+  lookup config_methods "beforeGenesisConfig.MaxStackSize" = Some (max_stack pre_genesis_ctx) /\
+  lookup config_methods "beforeGenesisConfig.MaxScriptSize" = Some (max_script_size pre_genesis_ctx) /\
+  lookup config_methods "beforeGenesisConfig.MaxScriptElementSize" = Some (max_elem pre_genesis_ctx) /\
+  lookup config_methods "beforeGenesisConfig.MaxScriptNumberLength" = Some (max_numlen pre_genesis_ctx) /\
+  lookup config_methods "beforeGenesisConfig.MaxPubKeysPerMultiSig" = Some (max_pubkeys pre_genesis_ctx) /\
+  lookup config_methods "afterGenesisConfig.MaxOps" = Some (max_ops post_genesis_ctx) /\
+  lookup config_methods "afterGenesisConfig.MaxStackSize" = Some (max_stack post_genesis_ctx) /\
+  lookup config_methods "afterGenesisConfig.MaxScriptSize" = Some (max_script_size post_genesis_ctx) /\
+  lookup config_methods "afterGenesisConfig.MaxScriptElementSize" = Some (max_elem post_genesis_ctx) /\
+  lookup config_methods "afterGenesisConfig.MaxScriptNumberLength" = Some (max_numlen post_genesis_ctx) /\
+  lookup config_methods "afterGenesisConfig.MaxPubKeysPerMultiSig" = Some (max_pubkeys post_genesis_ctx).
+Proof. exact config_methods_match. Qed.
+Print Assumptions C05_config_methods_match.
 Theorem C05_locktime_consts_match :
   lookup consensus_consts "LockTimeThreshold" = Some 500000000%Z /\
   lookup sequence_consts "MaxTxInSequenceNum" = Some 4294967295%Z /\
@@ -215,3 +239,110 @@ Theorem C05_locktime_consts_match :
   (4194304 + 65535 = 4259839)%Z.
 Proof. exact locktime_consts_match. Qed.
 Print Assumptions C05_locktime_consts_match.
+
+(** * Audit B additions (proofs/AuditB_C05.v)
+
+    What is NOT claimed by theorems in this file, because the model already says it and a theorem would restate a
+    definition: the arithmetic / comparison / bitwise / hash handlers (Z arithmetic on decoded numbers, bytewise
+    maps, library hashes), MINIMALIF, DISCOURAGE_NOPS, the CLTV / CSV rule and the clean-stack rule are [if]s of
+    model/Interp.v; those clauses are carried by the correspondence and by the node vectors evaluated on the model. *)
+From GoBT Require Import proofs.AuditB_C05.
+
+(** numeric operands, as a statement about magnitudes: the canonical encoding of z is admitted by the data stack as a
+    number exactly when |z| < 2^(8*limit-1) -- |z| <= 2^31-1 before Genesis (4 bytes), 750000 bytes after; so a
+    5-byte arithmetic result cannot be fed back before Genesis *)
+Theorem C05_operand_admission : forall c z,
+  pop_num c (num_enc z) = if (Z.abs z <? 2 ^ (8 * max_numlen c - 1))%Z then Some z else None.
+Proof. exact pop_num_enc. Qed.
+Print Assumptions C05_operand_admission.
+
+(** the length of the canonical encoding, both directions *)
+Theorem C05_num_enc_length_iff : forall z (k : nat), (1 <= k)%nat ->
+  ((List.length (num_enc z) <= k)%nat <-> (Z.abs z < 2 ^ (8 * Z.of_nat k - 1))%Z).
+Proof. exact num_enc_length_iff. Qed.
+Print Assumptions C05_num_enc_length_iff.
+
+(** conditional execution.  [cond_inv]: before Genesis everything pushed above an entry that is not TRUE is SKIP;
+    after Genesis SKIP never occurs (a TRUE entry may then sit on a FALSE one).  Under it, the guard with which
+    thread.executeOpcode lets a non-conditional opcode reach its handler -- top entry TRUE before Genesis, "no FALSE
+    anywhere and no OP_RETURN met" after -- says: every enclosing branch is taken *)
+Theorem C05_handler_runs_iff_all_branches_taken : forall c s v,
+  cond_inv c s = true ->
+  (branch_executing s && should_exec c s v =
+   forallb is_true (cond s) && (negb (after_genesis c) || negb (early s) || (v =? OP_RETURN)%N))%bool.
+Proof. exact handler_runs_iff_all_branches_taken. Qed.
+Print Assumptions C05_handler_runs_iff_all_branches_taken.
+
+(** the invariant holds at the start of every script, is kept by every step and hence along every script *)
+Theorem C05_cond_invariant_initial : forall c ops d, cond_inv c (set_ds (init_st ops) d) = true.
+Proof. exact cond_inv_init. Qed.
+Print Assumptions C05_cond_invariant_initial.
+Theorem C05_cond_invariant_step : forall so c p idx s s', sigops_ok so -> p_real p = true ->
+  (c_has_tx c = false -> (p_val p =? OP_CSV)%N = false) ->
+  cond_inv c s = true ->
+  (execute_opcode so c p idx s = OOk s' \/ execute_opcode so c p idx s = OReturn s') -> cond_inv c s' = true.
+Proof. exact cond_inv_step. Qed.
+Print Assumptions C05_cond_invariant_step.
+Theorem C05_cond_invariant_run : forall so c, sigops_ok so -> forall ops idx s acc,
+  Forall (fun p => p_real p = true /\ (c_has_tx c = false -> (p_val p =? OP_CSV)%N = false)) ops ->
+  cond_inv c s = true ->
+  match fst (run_ops so c ops idx s acc) with
+  | SEnd s' | SReturn s' => cond_inv c s' = true
+  | SErr | SPanic => True
+  end.
+Proof. exact cond_inv_run. Qed.
+Print Assumptions C05_cond_invariant_run.
+Example C05_cond_invariant_examples :
+  cond_wf_pre [COND_TRUE; COND_FALSE] = false /\ cond_wf_pre [COND_SKIP; COND_FALSE; COND_TRUE] = true /\
+  cond_wf_post [COND_TRUE; COND_FALSE] = true /\ cond_wf_post [COND_SKIP] = false.
+Proof. vm_compute. repeat split; reflexivity. Qed.
+
+(** OP_NUM2BIN as executed: an error exactly when the size is above the element limit or too small for the number;
+    otherwise the operand re-encoded minimally and padded to exactly n bytes, the number unchanged *)
+Theorem C05_num2bin_handler : forall so c p idx s nb a r n,
+  p_real p = true -> p_val p = OP_NUM2BIN -> ds s = nb :: a :: r -> pop_num c nb = Some n ->
+  exec_handler so c p idx s =
+    if ((max_elem c <? n)%Z || (n <? lenZ (num_enc (num_dec a)))%Z)%bool then OErr
+    else OOk (set_ds s ((if (n =? lenZ (num_enc (num_dec a)))%Z then num_enc (num_dec a)
+                         else num2bin_pad (num_enc (num_dec a)) (Z.to_nat n)) :: r)).
+Proof. exact num2bin_handler_spec. Qed.
+Print Assumptions C05_num2bin_handler.
+Theorem C05_num2bin_result_meaning : forall so c p idx s nb a r n s',
+  p_real p = true -> p_val p = OP_NUM2BIN -> ds s = nb :: a :: r -> pop_num c nb = Some n ->
+  exec_handler so c p idx s = OOk s' ->
+  exists x, ds s' = x :: r /\ lenZ x = n /\ num_dec x = num_dec a.
+Proof. exact num2bin_result_meaning. Qed.
+Print Assumptions C05_num2bin_result_meaning.
+
+(** the reject side of the stack opcodes: a primitive fails exactly when the stack is too short / the index out of range *)
+Theorem C05_dup_n_fails : forall n d, dup_n n d = None <-> (List.length d < n)%nat.
+Proof. exact dup_n_none. Qed.
+Print Assumptions C05_dup_n_fails.
+Theorem C05_swap_n_fails : forall n d, swap_n n d = None <-> (List.length d < 2 * n)%nat.
+Proof. exact swap_n_none. Qed.
+Print Assumptions C05_swap_n_fails.
+Theorem C05_rot_n_fails : forall n d, rot_n n d = None <-> (List.length d < 3 * n)%nat.
+Proof. exact rot_n_none. Qed.
+Print Assumptions C05_rot_n_fails.
+Theorem C05_over_n_fails : forall n d, over_n n d = None <-> (List.length d < 2 * n)%nat.
+Proof. exact over_n_none. Qed.
+Print Assumptions C05_over_n_fails.
+Theorem C05_pick_n_fails : forall i d, pick_n i d = None <-> (i < 0 \/ lenZ d <= i)%Z.
+Proof. exact pick_n_none. Qed.
+Print Assumptions C05_pick_n_fails.
+Theorem C05_roll_n_fails : forall i d, roll_n i d = None <-> (i < 0 \/ lenZ d <= i)%Z.
+Proof. exact roll_n_none. Qed.
+Print Assumptions C05_roll_n_fails.
+
+(** the sixteen flag bit positions of the model are those of scriptflag.go (regenerated on every run) *)
+Theorem C05_flag_bits_match :
+  (flag_bit_ok "Bip16" F_BIP16 && flag_bit_ok "StrictMultiSig" F_STRICTMULTISIG &&
+  flag_bit_ok "DiscourageUpgradableNops" F_DISCOURAGE_NOPS && flag_bit_ok "VerifyCheckLockTimeVerify" F_CLTV &&
+  flag_bit_ok "VerifyCheckSequenceVerify" F_CSV && flag_bit_ok "VerifyCleanStack" F_CLEANSTACK &&
+  flag_bit_ok "VerifyDERSignatures" F_DERSIG && flag_bit_ok "VerifyLowS" F_LOWS &&
+  flag_bit_ok "VerifyMinimalData" F_MINIMALDATA && flag_bit_ok "VerifyNullFail" F_NULLFAIL &&
+  flag_bit_ok "VerifySigPushOnly" F_SIGPUSHONLY && flag_bit_ok "EnableSighashForkID" F_FORKID &&
+  flag_bit_ok "VerifyStrictEncoding" F_STRICTENC && flag_bit_ok "VerifyBip143SigHash" F_BIP143 &&
+  flag_bit_ok "UTXOAfterGenesis" F_GENESIS && flag_bit_ok "VerifyMinimalIf" F_MINIMALIF)%bool = true.
+Proof. exact flag_bits_match. Qed.
+Print Assumptions C05_flag_bits_match.
